@@ -54,7 +54,7 @@ class C12(Property):
         # and a peer that taught addresses falls silent and is timed out
         k = 80 if thorough else 10
         out += ru.reannounce_cases(rng, k) + ru.silent_learned_cases(rng, k)
-        out += ru.rebind_cases(rng, max(2, k // 3)) + ru.nested_cases(rng, max(3, k // 2)) + ru.timeouts_cases(rng, 4 if thorough else 2) + ru.taprouter_cases(rng, max(4, k // 2))
+        out += ru.rebind_cases(rng, max(2, k // 3)) + ru.nested_cases(rng, max(3, k // 2)) + ru.timeouts_cases(rng, 4 if thorough else 2) + ru.taprouter_cases(rng, max(4, k // 2)) + ru.close_cases(rng, max(4, k // 2))
         return out
 
     def model_line(self, line, impl_out):
